@@ -209,7 +209,10 @@ SAME_NAMED_METHODS = [('', 'east.jobs.Worker.run', 'speed'), ('', 'west.jobs.Wor
 # a method bound under several scopes; macros / parameters bound to falsy literals
 EXTRA = [(('s', 'c06.K.meth', 'v'), 'int'), (('a/b', 'c06.K.meth', 'v'), 'str_short'), (('zz', 'c06.K.meth', 'v'), 'obj'),
          (('mac', 'gin.macro', 'value'), 'none'), (('a/b', 'gin.macro', 'value'), 'false'), (('mac0', 'gin.macro', 'value'), 'zero'),
-         (('', 'c06.g', 't'), 'none'), (('me', 'gin.macro', 'value'), 'empty_str')]
+         (('', 'c06.g', 't'), 'none'), (('me', 'gin.macro', 'value'), 'empty_str'),
+         # macros named like the contextual keywords of the statement grammar
+         (('include', 'gin.macro', 'value'), 'list_long'), (('import', 'gin.macro', 'value'), 'str_short'),
+         (('from', 'gin.macro', 'value'), 'int')]
 POOL = ([(T0, k) for k in VALUES] + [(t, k) for t in TARGETS[1:] for k in OTHER_KINDS] +
         [(t, k) for t in SAME_NAMED_METHODS for k in ('int', 'obj')] + EXTRA)
 WIDTHS = lambda ci: [ci + 1, ci + 2, 10, 20, 40, 80, 200]  # noqa: E731
@@ -597,10 +600,12 @@ def gen(tier):
 def run_refkeys(case, res):
   """Equal dicts are one value: the order in which a dict with reference keys was written must not show in the text."""
   items = ['@c06.g: 1', '@c06.f: 2', '@s/c06.g(): 3', '%mac: 4']
+  plain = ["'b': 1", "'a': {'z': 0, 'y': [1]}", "'c': 3", "'aa': None"]
   texts = {}
   for perm in itertools.permutations(range(len(items))):
     harness.hard_reset()
-    gin.parse_config('mac = 9\nc06.f.x = {%s}\n' % ', '.join(items[i] for i in perm))
+    gin.parse_config('mac = 9\nc06.f.x = {%s}\nc06.f.y = {%s}\n' % (', '.join(items[i] for i in perm),
+                                                                    ', '.join(plain[i] for i in perm)))
     res.case(('refkeys', perm), True)
     s1 = gin.config_str()
     harness.hard_reset()
